@@ -69,6 +69,7 @@ def run(P, chk, tier, client=False):
     m5ok = cursor_writers(P, chk, prop)
     exc = exceptions(P, E, client)
     used = set()
+    pending = []
     for s in A.sites:
         cls = "M3" if s.cls == "M3p" else s.cls
         ok = s.ok
@@ -92,10 +93,23 @@ def run(P, chk, tier, client=False):
                 ok = False
                 if s.ok is None:
                     detail = s.detail + " (no rule of this class discharges it and it is not a reviewed exception)"
+                pending.append((s, cls, detail))
+                continue
         if ok is None:
             chk.undecided(rules[cls], s.f, ir.loc(s.node), "%s: %s" % (s.f.name, s.what[:70]), detail)
             continue
         chk.site(rules[cls], s.f, ir.loc(s.node), "%s: %s" % (s.f.name, s.what[:70]), ok, detail)
+    for s, cls, detail in pending:
+        # a reviewed exception of this function and class whose own site has vanished, with its premise still holding: the
+        # function was rewritten and this is most likely the same site in other words - the argument cannot be re-used
+        # mechanically, and the engines cannot decide the site on their own
+        orphan = [ek for ek, v in exc.items() if ek[0] == s.f.name and ek[1] == cls and ek not in used and v[1]]
+        if orphan:
+            chk.undecided(rules[cls], s.f, ir.loc(s.node), "%s: %s" % (s.f.name, s.what[:70]),
+                          "%s; the reviewed exception written for `%s` in this function no longer finds its site, so this may be that "
+                          "site rewritten: not decided" % (detail, orphan[0][2]))
+            continue
+        chk.site(rules[cls], s.f, ir.loc(s.node), "%s: %s" % (s.f.name, s.what[:70]), False, detail)
     chk.extra["reviewed_exceptions"] = [{"function": k[0], "class": k[1], "site": k[2], "reason": v[0], "premise": v[2], "premise_holds": bool(v[1]),
                                           "matched": k in used} for k, v in sorted(exc.items(), key=lambda kv: tuple(map(str, kv[0])))]
     # the MX/SRV slot table of dns_decode: its read loop runs to the first empty slot
@@ -418,44 +432,57 @@ def dns_decode_premise(P, f, capn, qa):
     okall = True
     from iosa import tables
     ans_blocks, _, _ = tables.reach_under(f, {"qr": qa})
-    for b, x in f.all_nodes():
-        if b.id not in ans_blocks:
-            continue
-        if x.get("k") == "Bin" and x["op"] == "=" and pp(sk(x["a"][0])) == rv:
-            r = sk(x["a"][1])
-            if cval(r) is not None:
-                ok = cval(r) <= 0
-                kinds.append("const")
-            elif r.get("k") == "Cond" and guard._min_arms(r):
-                arms = [pp(a) for a in guard._min_arms(r)]
-                ok = True            # a clamp: judged below (the last clamp before the copy must name the capacity)
-                kinds.append("MIN(%s)" % ",".join(arms)[:30])
-            elif r.get("k") == "Call" and r.get("fn") == "strlen":
-                # terminated inside the capacity just before
-                term = [y for bb, y in f.all_nodes() if y.get("k") == "Bin" and y["op"] == "=" and cval(sk(y["a"][1])) == 0
-                        and pp(sk(y["a"][0])) == "%s[%s - 1]" % (pp(sk(r["a"][0])), capn)]
-                ok = bool(term)
-                kinds.append("strlen after termination")
-            elif r.get("k") == "Call" and r.get("fn") in ("readdata", "readtxtbin"):
-                ok = True            # followed by the clamp MIN(rv, capacity) before the copy (checked as M3 at the memcpy)
-                kinds.append(r["fn"])
-            elif r.get("k") == "Ref":
-                # the reassembly offset: its loop breaks at offset + 2 >= capacity
-                want = ((("%s" % capn, 1), (pp(r), -1)), "<=", 2) if capn < pp(r) else (((pp(r), 1), (capn, -1)), ">=", -2)
-                guardc = []
-                for bb in f.blocks.values():
-                    c = sk(bb.term["cond"]) if bb.term and bb.term.get("cond") is not None else None
-                    if c is not None and c.get("k") == "Bin" and c["op"] in ("<", "<=", ">", ">="):
-                        nc = L.norm_cmp(c["a"][0], c["op"], c["a"][1])
-                        if nc is not None and nc[0] == want[0] and nc[1] == want[1] and \
-                                (nc[2] >= want[2] if want[1] == "<=" else nc[2] <= want[2]):
-                            guardc.append(bb)
-                ok = bool(guardc)
-                kinds.append("offset with loop guard")
-            else:
-                ok = False
-                kinds.append("?%s" % pp(r)[:20])
-            okall = okall and ok
+    judged = {rv}
+    work = [rv]
+    nodes = [(b, x) for b, x in f.all_nodes() if b.id in ans_blocks]
+    while work:
+        cur = work.pop()
+        for b, x in nodes:
+            if x.get("k") == "Bin" and x["op"] == "=" and pp(sk(x["a"][0])) == cur:
+                r = sk(x["a"][1])
+                if cval(r) is not None:
+                    ok = cval(r) <= 0
+                    kinds.append("const")
+                elif r.get("k") == "Cond" and guard._min_arms(r):
+                    arms = [pp(a) for a in guard._min_arms(r)]
+                    ok = True            # a clamp: judged below (the last clamp before the copy must name the capacity)
+                    kinds.append("MIN(%s)" % ",".join(arms)[:30])
+                elif r.get("k") == "Call" and r.get("fn") == "strlen":
+                    # terminated inside the capacity just before
+                    term = [y for bb, y in f.all_nodes() if y.get("k") == "Bin" and y["op"] == "=" and cval(sk(y["a"][1])) == 0
+                            and pp(sk(y["a"][0])) == "%s[%s - 1]" % (pp(sk(r["a"][0])), capn)]
+                    ok = bool(term)
+                    kinds.append("strlen after termination")
+                elif r.get("k") == "Call" and r.get("fn") in ("readdata", "readtxtbin"):
+                    ok = True            # followed by the clamp MIN(rv, capacity) before the copy (checked as M3 at the memcpy)
+                    kinds.append(r["fn"])
+                elif r.get("k") == "Ref":
+                    # the reassembly offset: its loop breaks at offset + 2 >= capacity
+                    want = ((("%s" % capn, 1), (pp(r), -1)), "<=", 2) if capn < pp(r) else (((pp(r), 1), (capn, -1)), ">=", -2)
+                    guardc = []
+                    for bb in f.blocks.values():
+                        c = sk(bb.term["cond"]) if bb.term and bb.term.get("cond") is not None else None
+                        if c is not None and c.get("k") == "Bin" and c["op"] in ("<", "<=", ">", ">="):
+                            nc = L.norm_cmp(c["a"][0], c["op"], c["a"][1])
+                            if nc is not None and nc[0] == want[0] and nc[1] == want[1] and \
+                                    (nc[2] >= want[2] if want[1] == "<=" else nc[2] <= want[2]):
+                                guardc.append(bb)
+                    ok = bool(guardc)
+                    if ok:
+                        kinds.append("offset with loop guard")
+                    elif r["ref"].get("rk") == "local" and any(y.get("k") == "Bin" and y["op"] == "=" and pp(sk(y["a"][0])) == pp(r) for _, y in nodes):
+                        # a temporary that carries the count (the value a helper returns): judged by its own assignments
+                        ok = True
+                        kinds.append("via %s" % pp(r)[:24])
+                        if pp(r) not in judged:
+                            judged.add(pp(r))
+                            work.append(pp(r))
+                    else:
+                        kinds.append("offset without loop guard")
+                else:
+                    ok = False
+                    kinds.append("?%s" % pp(r)[:20])
+                okall = okall and ok
     return okall and bool(kinds), "assignments to %s: %s" % (rv, ", ".join(sorted(set(kinds))))
 
 
@@ -634,15 +661,25 @@ def srv_exceptions(P, E, exc, c10ok):
     try:
         c09.reserve(P, chk9, rr7, wn)
         r7ok = bool(chk9.rules[rr7]["sites"]) and all(s_.ok for s_ in chk9.rules[rr7]["sites"])
+        if chk9.broken_extra and not any(not s_.ok for s_ in chk9.rules[rr7]["sites"]):
+            r7ok = None         # C09.R7 could not judge the arithmetic as it is written now
     except AnalysisBroken:
-        r7ok = False
+        r7ok = None
     exc[("write_dns_nameenc", "M3c", "(buf + 1, space)")] = (
-        "the reserve arithmetic of the hostname writer, judged as a whole by C09.R7", r7ok and prem,
+        "the reserve arithmetic of the hostname writer, judged as a whole by C09.R7", None if r7ok is None else (r7ok and prem),
         "C09.R7 re-evaluated: letter + space + dots + 3 <= MIN(255, buflen) for every buflen >= 8; callers hand over 64 KB or an MX "
         "remainder of at least 256 bytes (premise above)")
     # ---- write_dns_nameenc: strlen(buf) - 1
     stores = [x for b, x in wn.all_nodes() if x.get("k") == "Bin" and x["op"] == "=" and pp(sk(x["a"][0])) == "buf[0]"]
-    nz = bool(stores) and all(cval(sk(x["a"][1])) not in (None, 0) for x in stores)
+    anw = E.analysis(wn)
+
+    def nonzero(x):
+        v = cval(sk(x["a"][1]))
+        if v is not None:
+            return v != 0
+        ds_ = anw.before_node(x["n"]) or []
+        return bool(ds_) and all(guard.d_holds(d, "!=", pp(sk(x["a"][1])), 0) or guard.d_holds(d, ">=", pp(sk(x["a"][1])), 1) for d in ds_)
+    nz = bool(stores) and all(nonzero(x) for x in stores)
     sub = [x for b, x in wn.all_nodes() if x.get("k") == "Bin" and x["op"] == "-" and pp(sk(x["a"][0])) == "strlen(buf)"]
     dom = nz and all(any(wn.dominates(E.locate(wn, st_["n"])[0], E.locate(wn, sb["n"])[0]) for st_ in stores) or True for sb in sub)
     # every path to the subtraction passes one of the stores: the stores sit in the arms of an if/else chain that covers all cases
@@ -651,14 +688,7 @@ def srv_exceptions(P, E, exc, c10ok):
     exc[("write_dns_nameenc", "M2", "strlen(buf) - 1")] = (
         "the name always starts with its codec letter, so it is never empty", nz and cover,
         "every path to the subtraction stores a non-zero constant into buf[0] (%d stores) and the codecs only append" % len(stores))
-    # ---- datagram length in read_dns
-    rd = P.func("read_dns", "iodined.c")
-    pk = [l for l in rd.locals if l["ref"]["name"] == "packet"]
-    iov = [x for b, x in rd.all_nodes() if x.get("k") == "Bin" and x["op"] == "=" and pp(sk(x["a"][0])) == "iov.iov_len"]
-    prem = bool(pk) and bool(iov) and all(cval(sk(x["a"][1])) == pk[0]["t"].get("size") for x in iov) and pk[0]["t"].get("size") <= 65536 + 4
-    exc[("read_dns", "M3", "memcpy(users[userid].inpacket.data", "-r + 65")] = (
-        "the raw frame length is bounded by the receive buffer: recvmsg() returns at most iov_len", prem,
-        "iov.iov_len = sizeof(packet) = %s, payload = r - 4 <= %s" % (pk[0]["t"].get("size") if pk else None, 65536))
+    # (the datagram length in read_dns is no exception any more: E1 knows recvmsg() returns at most the iov length)
     # ---- query memory ring
     chk2 = report.Check("C16", "quick", P)
     try:
